@@ -88,7 +88,7 @@ from .ops import (
     UnaryOpTable,
 )
 from .storage import choose_storage_scalar
-from .types import CppScalar
+from .types import UNSIGNED_INT_TYPES, CppScalar
 
 # ---------------------------------------------------------------------
 # Native context inventory.
@@ -230,6 +230,21 @@ _TERNARY_CMATH = (
 # ---------------------------------------------------------------------
 # Per-arity table builders.
 
+def _int_abs(ctx: Context) -> CppOp:
+    """``abs`` under an integer context.
+
+    A signed type goes through ``std::abs``.  An unsigned one has no overload:
+    ``std::abs(uint32_t)`` / ``std::abs(uint64_t)`` are ambiguous (the narrower
+    unsigned types only compile by integer promotion), and the absolute value
+    of an unsigned value is the value itself -- so it is spelled as the identity
+    conversion to its own type.
+    """
+    ty = _ty_of(ctx)
+    if ty in UNSIGNED_INT_TYPES:
+        return CppOp(f'static_cast<{ty.format()}>', (ty,), ctx)
+    return CppOp('std::abs', (ty,), ctx)
+
+
 def _make_unary_table() -> UnaryOpTable:
     fp = _fp_ctxs()
     ints = _int_ctxs()
@@ -239,7 +254,7 @@ def _make_unary_table() -> UnaryOpTable:
               for c in same],
         Abs: (
             [CppOp('std::fabs', (_ty_of(c),), c) for c in fp]
-            + [CppOp('std::abs', (_ty_of(c),), c) for c in ints]
+            + [_int_abs(c) for c in ints]
         ),
     }
     for op_cls, name in _UNARY_CMATH:
